@@ -1,2 +1,32 @@
-/- Model driver for C04 (line protocol). Stub until the property's model lands. -/
-def main : IO Unit := pure ()
+/-
+  Model driver for C04 (line protocol, see harness/c04_idx.c). Imports Model only.
+  Evaluates the index formulas the C04 theorems are about, so that the check can compare them with the REAL macros /
+  inline functions on a grid:
+    idx lit <lc> <lp> <pos> <prev>     -> Lzma.literalSubcoder (offset of literal_subcoder(...) from the array base)
+    idx dget <pos> <size> <distance>   -> LzDict.DictPos.getIndex (index read by dict_get)
+    idx dstate <len>                   -> Lzma.getDistState
+-/
+import XzVerif.Model.Proto
+import XzVerif.Model.Lzma
+import XzVerif.Model.LzDict
+open XzVerif XzVerif.Proto
+
+def step (_ : Unit) (ws : List String) : Unit × String :=
+  match ws with
+  | ["idx", "lit", lc, lp, pos, prev] =>
+    match lc.toNat?, lp.toNat?, pos.toNat?, prev.toNat? with
+    | some lc, some lp, some pos, some prev => ((), toString (Lzma.literalSubcoder lc lp pos prev))
+    | _, _, _, _ => ((), "bad-op")
+  | ["idx", "dget", pos, size, dist] =>
+    match pos.toNat?, size.toNat?, dist.toNat? with
+    | some pos, some size, some dist =>
+      let p : LzDict.DictPos := { pos := pos, full := 0, limit := pos, size := size, hasWrapped := false, needReset := false }
+      ((), toString (p.getIndex dist))
+    | _, _, _ => ((), "bad-op")
+  | ["idx", "dstate", len] =>
+    match len.toNat? with
+    | some len => ((), toString (Lzma.getDistState len))
+    | none => ((), "bad-op")
+  | _ => ((), "bad-op")
+
+def main : IO Unit := runLoop step ()
